@@ -14,6 +14,7 @@ FUNCTIONS = [
     "enqueue_block (in-flight copy)",
     "hash_table_search_pre_hashed", "hash_table_insert_pre_hashed",
     "sqfs_writer_init (block writer / block processor configuration)",
+    "sqfs_block_processor_create_ex", "sqfs_block_writer_create",
 ]
 TRUSTED = [
     "checksums are uninterpreted: every (size|checksum) word, chunk hash and xxh32 result is a free symbolic value, so equal words for different bytes occur in every harness",
@@ -139,9 +140,16 @@ HARNESSES = [
              "set_worker_ptr": "stub_set_worker_ptr", "do_block": "stub_do_block",
              "read_at": "stub_read_at"},
          unwind=4,
-         cases=[dict(id="file%d_uncmp%d" % (f, u), defines={"HAVE_FILE": f, "HAVE_UNCMP": u, "BS": 4096},
-                     tier="quick")
-                for f in (0, 1) for u in (0, 1)]),
+         cases=[dict(id="file%d_uncmp%d_w%d_fail%d" % (f, u, w, k),
+                     defines={"HAVE_FILE": f, "HAVE_UNCMP": u, "WORKERS": w, "FAIL_AT": k, "BS": 4096},
+                     tier="quick" if (f, u) == (1, 1) or k == 0 else "thorough")
+                for f in (0, 1) for u in (0, 1) for w in (1, 2) for k in range(0, 9)
+                if w == 2 or k == 0]),
+    dict(name="create_bw", file="create_bw.c", label="proved", timeout=60,
+         nochecks=["--conversion-check"],   # `flags & ~ENUM`: intended int -> unsigned conversion
+         fp={"destroy": "stub_file_destroy", "get_size": "stub_get_size", "write_at": "stub_write_at",
+             "truncate": "stub_truncate"},
+         cases=[dict(id="fail%d" % k, defines={"FAIL_AT": k}, tier="quick") for k in (0, 1, 2)]),
     dict(name="init_compare", file="init_compare.c", label="proved", timeout=300,
          fp={"write_options": "stub_write_options", "destroy": "stub_destroy"},
          cases=[dict(id="all", tier="quick")]),
